@@ -287,6 +287,18 @@ func (u *PacketUnderlay) onOpenSessionRequest(seg *segment, remoteAddr net.Addr)
 	if !u.deliverSegmentToSession(session, seg) {
 		return fmt.Errorf("failed to deliver open session request for session %d", sessionID)
 	}
+	// Wait until the session accepts or refuses the open session request,
+	// so a refused session is never returned by Accept().
+	select {
+	case <-session.openDecided:
+		if session.openRefused.Load() {
+			return nil
+		}
+	case <-session.closedChan:
+		return nil
+	case <-u.done:
+		return io.ErrClosedPipe
+	}
 	select {
 	case u.readySessions <- session:
 	case <-u.done:
